@@ -369,7 +369,8 @@ func c06Programs(tier string) []*Spec {
 func init() {
 	register(&Family{
 		Property: "C06",
-		Rule: "three bars created with priority patterns {creation order, descending explicit, ties, one explicit}; sequences of 1 (quick) or 2 (thorough) priority changes over {bar} x {to top, to bottom} x {immediate, lazy}, with or without a refresh between them, then completion; plus concurrent changes from client threads, pop-mode finishing orders, extreme priority values (MaxInt, MinInt) and changes addressed to bars that have completed or were aborted and are still displayed (through Progress.UpdateBarPriority and through Bar.SetPriority); manual and auto refresh; every schedule within the deviation bound. " +
+		Rule: "also: one bar changed and changed back at once, bursts of changes with a request queue as short as the number of bars (all three base strategies), pop mode with a change addressed to the finished bar 1, 2 and 3 frames after it finished; " +
+			"three bars created with priority patterns {creation order, descending explicit, ties, one explicit}; sequences of 1 (quick) or 2 (thorough) priority changes over {bar} x {to top, to bottom} x {immediate, lazy}, with or without a refresh between them, then completion; plus concurrent changes from client threads, pop-mode finishing orders, extreme priority values (MaxInt, MinInt) and changes addressed to bars that have completed or were aborted and are still displayed (through Progress.UpdateBarPriority and through Bar.SetPriority); manual and auto refresh; every schedule within the deviation bound. " +
 			"Oracle: a reference priority interval per bar and frame from the invoke/return steps of the calls (a change overlapping the cycle may or may not be visible); frames inside the unspecified window of a lazy change are skipped; in every other frame no bar with a definitely larger priority value is above one with a definitely smaller one; in pop mode a finished bar that has risen has no running bar above it.",
 		Items: func(tier string) []Item {
 			var items []Item
